@@ -35,9 +35,11 @@ package ociclient
 //@   requires r != nil && 0 <= r.Kind && r.Kind <= ocirequest.ReqCatalogList
 //@   modifies nothing
 
+// do fills in the scheme and host of the request's URL and adds an Expect
+// header when there is a body; nothing else of the request changes.
 //@ func (*client).do
 //@   log
-//@   modifies http.Request, url.URL
+//@   modifies url.URL.Scheme, url.URL.Host
 //@   requires wfReq(req)
 //@   ensures[response-or-error] result.1 == nil ==> wfResp(result.0)
 //@   ensures[error-means-nil] result.1 != nil ==> result.0 == nil
@@ -217,8 +219,44 @@ package ociclient
 //@ func (*client).Referrers
 //@   private resp
 //@   ensures result != nil
+// C04: the chunked writer's books. size counts every byte accepted from the
+// caller, flushed every byte the server has acknowledged, chunk holds the
+// rest: size == flushed + len(chunk) whenever the writer's lock is free.
+// flush sends exactly chunk followed by buf, labelled with the half-open
+// range [flushed, flushed+len) it occupies in the upload, and advances
+// flushed only when the server accepted it.
+//@ guarded_by blobWriter.mu: blobWriter.closed, blobWriter.chunk, blobWriter.closeErr, blobWriter.size, blobWriter.flushed, blobWriter.location
+//@ public-invariant (*blobWriter) self.size == self.flushed + len(self.chunk)
+//@ immutable blobWriter.chunkSize, blobWriter.client, blobWriter.ctx
 //@ func (*blobWriter).flush
-//@   private resp
+//@   holds w.mu
+//@   private resp, req, w
+//@   ensures[nothing-outstanding-nothing-sent] commitDigest == "" && len(buf) + old(len(w.chunk)) == 0 ==>
+//@     result == nil && ncalls() == 0 && w.flushed == old(w.flushed)
+//@   ensures[labelled-with-its-place-in-the-upload] result == nil && !(commitDigest == "" && len(buf) + old(len(w.chunk)) == 0) ==>
+//@     req.ContentLength == old(len(w.chunk)) + len(buf) &&
+//@     hdr(req.Header, "Content-Range") == ocirequest.RangeString(old(w.flushed), old(w.flushed) + old(len(w.chunk)) + len(buf))
+//@   ensures[acknowledged-means-flushed] result == nil && !(commitDigest == "" && len(buf) + old(len(w.chunk)) == 0) ==>
+//@     w.flushed == old(w.flushed) + old(len(w.chunk)) + len(buf) && len(w.chunk) == 0
+//@   ensures[failure-keeps-the-books] result != nil ==> w.flushed == old(w.flushed) && string(w.chunk) == old(string(w.chunk))
+//@   ensures[size-untouched] w.size == old(w.size)
+
+//@ func (*blobWriter).Write
+//@   private w
+//@   ensures[accepted-bytes-are-counted-once] result.1 == nil ==> result.0 == len(buf) && w.size == old(w.size) + len(buf)
+//@   ensures[refused-write-changes-nothing] result.1 != nil ==> result.0 == 0 && w.size == old(w.size) && w.flushed == old(w.flushed) &&
+//@     string(w.chunk) == old(string(w.chunk))
+//@   ensures[small-writes-are-buffered-in-order] result.1 == nil && old(len(w.chunk)) + len(buf) <= w.chunkSize ==>
+//@     string(w.chunk) == old(string(w.chunk)) + string(buf) && w.flushed == old(w.flushed)
+//@ func (*blobWriter).Size
+//@   ensures result == w.size
+//@ func (*blobWriter).Commit
+//@   private w
+//@   ensures[everything-flushed-before-success] result.1 == nil ==> w.flushed == w.size && len(w.chunk) == 0 &&
+//@     result.0.Size == w.size && result.0.Digest == digest
+//@ func (*blobWriter).Close
+//@   private w
+//@   ensures[everything-flushed-before-success] result == nil && !old(w.closed) ==> w.flushed == w.size && len(w.chunk) == 0
 
 //@ func (*client).DeleteBlob
 //@   requires ociref.IsValidDigest(string(digest))
